@@ -28,6 +28,21 @@ def mk(spec, ids):
             out.append(frame('PD', pdvs=[(fl, m.m, v, 1) for fl, v in part]))
         assert i == len(m.pdvs), 'grouping does not cover the message'
         return out
+    if kind == 'MSGA':                # ('MSGA', nc, nd, grouping, k): the first k PDUs of a message ...
+        _, nc, nd, grouping, k = spec
+        ids['m'] += 1
+        m = MsgPlan(ids['m'], nc=nc, nd=nd)
+        out, i = [], 0
+        for g in grouping:
+            part = m.pdvs[i:i + g]
+            i += g
+            out.append(frame('PD', pdvs=[(fl, m.m, v, 1) for fl, v in part]))
+        ids['rest'] = out[k:]
+        return out[:k]
+    if kind == 'MSGB':                # ... ('MSGB',): the rest of it, later
+        rest = ids.get('rest') or []
+        ids['rest'] = []
+        return rest
     if kind in ('RJ', 'AB'):
         return [frame(kind, spec[1])]
     return [frame(kind)]
@@ -57,6 +72,9 @@ ACCEPTOR = {
     'early-data': [('P', [('RQ',), ('MSG', 1, 0, [1])]), ('FIN',)],
     'abort-close': [('P', [('RQ',)]), ('U', 'AC', ()), ('P', [('MSG', 1, 1, [1, 1]), ('AB', [2, 5])]), ('FIN',)],
     'release-data': [('P', [('RQ',)]), ('U', 'AC', ()), ('U', 'RLRQ', ()), ('P', [('MSG', 1, 1, [2]), ('RLRP',)])],
+    # a message of the peer begun while established is completed after the local user has asked for release (Sta7)
+    'release-mid-message': [('P', [('RQ',)]), ('U', 'AC', ()), ('P', [('MSGA', 1, 2, [1, 1, 1], 1)]), ('U', 'RLRQ', ()),
+                            ('P', [('MSGB',), ('RLRP',)])],
     # the peer keeps talking after the PDU that ended the association for the provider (awaiting close, Sta13)
     'garbage-then-request': [('P', [('UNK',), ('RQ',)]), ('FIN',)],
     'request-garbage-tail': [('P', [('RQ',), ('UNK',), ('UNK0',)]), ('FIN',)],
@@ -76,6 +94,8 @@ REQUESTOR = {
     'collision': [('U', 'RQ', ()), ('P', [('AC',)]), ('U', 'RLRQ', ()), ('P', [('RLRQ',)]), ('U', 'RLRP', ()), ('P', [('RLRP',)])],
     'response-close': [('U', 'RQ', ()), ('P', [('AC',)]), ('G', 1), ('P', [('MSG', 1, 0, [1]), ('MSG', 1, 0, [1]), ('AB', [0, 0])]), ('FIN',)],
     'abort-then-peer-talks': [('U', 'RQ', ()), ('P', [('AC',)]), ('U', 'AB', (0, 0)), ('P', [('MSG', 1, 0, [1]), ('UNK0',), ('AB', [2, 0])]), ('FIN',)],
+    'release-mid-message': [('U', 'RQ', ()), ('P', [('AC',)]), ('G', 1), ('P', [('MSGA', 2, 1, [1, 1, 1], 2)]), ('U', 'RLRQ', ()),
+                            ('P', [('MSGB',), ('RLRP',)])],
     'find': [('U', 'RQ', ()), ('P', [('AC',)]), ('G', 2), ('P', [('MSG', 1, 1, [1, 1]), ('MSG', 1, 1, [2]), ('MSG', 1, 0, [1])]),
              ('U', 'RLRQ', ()), ('P', [('RLRP',)])],
 }
@@ -114,7 +134,8 @@ def play(script, req, cuts=(), dribble=False, waiting=False, fin_at=None, stop_s
     """Play a script.
     cuts: absolute offsets in the peer's byte stream at which a segment boundary falls (besides the
           natural one after each peer write); dribble: one byte per segment.
-    waiting: the first peer write (acceptor) is already in the socket when the provider starts.
+    waiting: the first peer write is already in the socket when the provider starts (acceptor) / as soon as the
+             connection exists, before the request is written (requestor).
     fin_at: the peer disconnects after exactly this many bytes of its stream (and sends nothing more).
     hard: the disconnection of fin_at is a connection reset (reads and writes fail) instead of an orderly close.
     eager_fin: when a peer write is directly followed by the peer closing, the close is issued together
@@ -218,6 +239,12 @@ def play(script, req, cuts=(), dribble=False, waiting=False, fin_at=None, stop_s
                     break
             elif op[0] == 'U':
                 run.user_put(op[1], op[2])
+                if waiting and req and first and op[1] == 'RQ' and opi + 1 < len(script) and script[opi + 1][0] == 'P':
+                    # requestor: the peer's first segment is readable as soon as the connection exists - before the
+                    # request has even been written (one iteration = AE-1 only; the next op delivers the segment)
+                    first = False
+                    run.iterate()
+                    continue
                 if not settle():
                     break
             elif op[0] == 'G':
